@@ -992,3 +992,321 @@ Proof.
 Qed.
 
 Print Assumptions emit_typed.
+
+(* ---------- from the judgment to the verifier ---------- *)
+Section Link.
+Variable p : program.
+Variable G : Z -> option shape.
+
+(* the shape table: G tabulated on the instruction boundaries *)
+Definition sh_of : list (Z * shape) :=
+  flat_map (fun co => match G (fst co) with Some t => [(fst co, t)] | None => [] end) (cp_dec (codes p)).
+
+Lemma cp_dec_aux_tail f : forall pos code c op,
+  In (c, op) (match cp_dec_aux f pos code with [] => [] | _ :: tl => tl end) -> pos < c.
+Proof.
+  destruct f as [|f]; intros pos code c op H; cbn [cp_dec_aux] in H; [contradiction|].
+  destruct code as [|w code']; [contradiction|]. cbv zeta in H.
+  destruct (opcode_size w <=? 0) eqn:E; [contradiction|]. apply cp_dec_aux_pos in H. lia.
+Qed.
+
+Lemma sh_get_flat_none pc (l : list (Z * Z)) : (forall c op, In (c, op) l -> pc < c) ->
+  sh_get pc (flat_map (fun co => match G (fst co) with Some t => [(fst co, t)] | None => [] end) l) = None.
+Proof.
+  induction l as [|[c op] l IH]; intros H; cbn [flat_map]; [reflexivity|]. cbn [fst].
+  pose proof (H c op (or_introl eq_refl)) as Hc.
+  destruct (G c) as [t|]; cbn [app sh_get]; [replace (pc =? c) with false by lia|]; apply IH; intros c' op' Hin; apply (H c' op'); right; exact Hin.
+Qed.
+
+Lemma sh_get_dec f : forall pos code pc w, In (pc, w) (cp_dec_aux f pos code) ->
+  sh_get pc (flat_map (fun co => match G (fst co) with Some t => [(fst co, t)] | None => [] end) (cp_dec_aux f pos code)) = G pc.
+Proof.
+  induction f as [|f IH]; intros pos code pc w H; cbn [cp_dec_aux] in H |- *; [contradiction|].
+  destruct code as [|w0 code']; [contradiction|]. cbv zeta in H |- *.
+  destruct (opcode_size w0 <=? 0) eqn:E; [contradiction|]. cbn [flat_map fst].
+  destruct H as [H|H].
+  - injection H as <- <-. destruct (G pos) as [t|] eqn:Eg; cbn [app sh_get].
+    + rewrite Z.eqb_refl. reflexivity.
+    + apply sh_get_flat_none. intros c op Hin. apply cp_dec_aux_pos in Hin. lia.
+  - pose proof (cp_dec_aux_pos _ _ _ _ _ H) as Hp.
+    destruct (G pos) as [t|]; cbn [app sh_get]; [replace (pc =? pos) with false by lia|]; eapply IH; exact H.
+Qed.
+
+Hypothesis Hdom : forall pc s, G pc = Some s -> exists w, instr_at p pc = Some w.
+
+Lemma sh_at_of pc : sh_at p sh_of pc = G pc.
+Proof.
+  unfold sh_at. destruct (instr_at p pc) as [w|] eqn:E.
+  - apply instr_at_bnd in E. destruct E as [E _]. unfold sh_of. unfold cp_boundary, cp_dec in *. eapply sh_get_dec. exact E.
+  - destruct (G pc) as [s|] eqn:Eg; [|reflexivity]. destruct (Hdom pc s Eg) as [w Hw]. rewrite Hw in E. discriminate.
+Qed.
+
+Lemma instr_ok_of pc w : instr_ok p sh_of pc w = iokb G pc w (arg1 p pc).
+Proof. unfold instr_ok, iokb. rewrite !sh_at_of. reflexivity. Qed.
+
+
+Lemma arg1_at pre op x tl a : codes p = pre ++ op :: x :: tl -> zlen pre = a -> arg1 p a = x.
+Proof.
+  intros Hc Ha. unfold arg1, code_at, znth. rewrite Hc. pose proof (zlen_nonneg pre).
+  replace (a + 1 <? 0) with false by lia. unfold zlen in *.
+  rewrite nth_error_app2 by lia. replace (Z.to_nat (a + 1) - length pre)%nat with 1%nat by lia. reflexivity.
+Qed.
+
+Lemma wtc_dec : forall a code Sl, wtc G a code Sl -> forall pre fuel, codes p = pre ++ code -> zlen pre = a ->
+  (length code <= fuel)%nat ->
+  (forall c w, In (c, w) (cp_dec_aux fuel a code) -> iokb G c w (arg1 p c) = true) /\
+  map fst (cp_dec_aux fuel a code) = Sl.
+Proof.
+  induction 1 as [a|a op args rest Sl Hsz Hok Hr IH]; intros pre fuel Hc Ha Hf.
+  - destruct fuel; cbn [cp_dec_aux]; (split; [intros c w H; contradiction|reflexivity]).
+  - destruct fuel as [|f]; [cbn [length] in Hf; lia|].
+    cbn [cp_dec_aux]. cbv zeta. pose proof (zlen_nonneg args) as Hz.
+    replace (opcode_size op <=? 0) with false by lia.
+    assert (Hsk : skipn (Z.to_nat (opcode_size op)) (op :: args ++ rest) = rest).
+    { rewrite Hsz. unfold zlen. replace (Z.to_nat (1 + Z.of_nat (length args))) with (S (length args)) by lia.
+      cbn [skipn]. rewrite skipn_app, skipn_all, Nat.sub_diag. reflexivity. }
+    rewrite Hsk. cbn [length] in Hf. rewrite app_length in Hf.
+    destruct (IH (pre ++ op :: args) f) as [I1 I2].
+    { rewrite Hc, <- app_assoc. reflexivity. }
+    { rewrite zlen_app, zlen_cons. lia. }
+    { lia. }
+    split.
+    + intros c w [H|H]; [|apply I1; exact H]. injection H as <- <-.
+      destruct args as [|x args'].
+      * rewrite (iokb_arg_irrel G a op _ (-1)); [exact Hok|]. rewrite Hsz. reflexivity.
+      * rewrite (arg1_at pre op x (args' ++ rest) a Hc Ha). exact Hok.
+    + cbn [map fst]. rewrite I2. reflexivity.
+Qed.
+
+Lemma wtc_program S : wtc G 0 (codes p) S ->
+  (forall pc w, In (pc, w) (cp_dec (codes p)) -> iokb G pc w (arg1 p pc) = true) /\
+  (forall pc, In pc S -> exists w, instr_at p pc = Some w).
+Proof.
+  intros W. destruct (wtc_dec 0 (codes p) S W [] (length (codes p)) eq_refl eq_refl (le_n _)) as [I1 I2].
+  fold (cp_dec (codes p)) in I1, I2. split.
+  - exact I1.
+  - intros pc Hin. rewrite <- I2 in Hin. apply in_map_iff in Hin. destruct Hin as ([c w] & E & Hin). cbn [fst] in E. subst c.
+    unfold instr_at. destruct (List.find (fun co => fst co =? pc) (cp_dec (codes p))) as [[c' w']|] eqn:Ef.
+    + exists w'. reflexivity.
+    + exfalso. pose proof (find_none _ _ Ef _ Hin) as Hn. cbn [fst] in Hn. lia.
+Qed.
+
+End Link.
+
+(* ---------- the depth of the grouping stack is bounded by the number of counted instructions ---------- *)
+Definition dep_opt (f : node -> Z) (no : option node) : Z := match no with Some x => f x | None => 0 end.
+
+Fixpoint dep (c : wcfg) (t : node) : Z :=
+  match t with
+  | NConcat _ l | NAlternate _ l =>
+      (fix go (l : list node) : Z := match l with [] => 0 | x :: l' => Z.max (dep c x) (go l') end) l
+  | NLoop _ _ _ _ r => 2 + dep c r
+  | NCapture _ g u r => if emit_capture c g u then 1 + dep c r else dep c r
+  | NGroup r => dep c r
+  | NPosLook _ r => 3 + dep c r
+  | NNegLook _ r => 2 + dep c r
+  | NAtomic r => 2 + dep c r
+  | NBackRefCond _ _ yes no => Z.max 2 (Z.max (dep c yes) (dep_opt (dep c) no))
+  | NExprCond _ cnd yes no => Z.max (3 + dep c cnd) (Z.max (dep c yes) (dep_opt (dep c) no))
+  | _ => 0
+  end.
+Definition dep_list (c : wcfg) : list node -> Z :=
+  fix go (l : list node) : Z := match l with [] => 0 | x :: l' => Z.max (dep c x) (go l') end.
+
+Lemma dep_nonneg c : forall t, 0 <= dep c t.
+Proof.
+  induction t as [kd o ch|kd lk o ch m n|o str|o g|an| | | |o l HF|o l HF|lazy o m n r IHr|o g u r IHr
+                 |r IHr|o r IHr|o r IHr|r IHr|o g yes no IHy IHn|o cnd yes no IHc IHy IHn]
+    using node_ind'; cbn [dep]; try lia.
+  - change (0 <= dep_list c l). induction HF as [|x l Hx HF IH]; cbn [dep_list]; lia.
+  - change (0 <= dep_list c l). induction HF as [|x l Hx HF IH]; cbn [dep_list]; lia.
+  - destruct (emit_capture c g u); lia.
+Qed.
+
+Lemma shf_depth c : forall t a tau pc s, shf c t a tau pc = Some s -> swords s <= swords tau + dep c t.
+Proof.
+  induction t as [kd o ch|kd lk o ch m n|o str|o g|an| | | |o l HF|o l HF|lazy o m n r IHr|o g u r IHr
+                 |r IHr|o r IHr|o r IHr|r IHr|o g yes no IHy IHn|o cnd yes no IHc IHy IHn]
+    using node_ind'; intros a tau pc s H; cbn [shf dep] in H |- *; unfold at_pc in H;
+    try (destruct (pc =? a); [injection H as <-; lia|discriminate H]); try discriminate H.
+  - ifs_in H; try discriminate H; injection H as <-; lia.
+  - change (shf_seq c tau pc l a = Some s) in H. change (swords s <= swords tau + dep_list c l). revert a H.
+    induction HF as [|x l Hx HF IH]; intros a H; cbn [shf_seq dep_list] in *; [discriminate H|].
+    destruct (pc <? a + csize c x); [apply Hx in H; lia|apply IH in H; lia].
+  - change (shf_alt c tau pc l a = Some s) in H. change (swords s <= swords tau + dep_list c l). revert a H.
+    induction HF as [|x l Hx HF IH]; intros a H; [discriminate H|].
+    destruct l as [|y l]; [cbn [shf_alt dep_list] in *; apply Hx in H; lia|].
+    change (shf_alt c tau pc (x :: y :: l) a) with
+      (if pc =? a then Some tau else if pc <? a + 2 + csize c x then shf c x (a + 2) tau pc
+       else if pc =? a + 2 + csize c x then Some tau else shf_alt c tau pc (y :: l) (a + 2 + csize c x + 2)) in H.
+    pose proof (dep_nonneg c x). assert (0 <= dep_list c (y :: l)).
+    { clear. induction (y :: l) as [|z l' IHl]; cbn [dep_list]; [lia|]. pose proof (dep_nonneg c z). lia. }
+    change (dep_list c (x :: y :: l)) with (Z.max (dep c x) (dep_list c (y :: l))).
+    ifs_in H; try (injection H as <-); try (apply Hx in H); try (apply IH in H); lia.
+  - cbv zeta in H. pose proof (dep_nonneg c r).
+    destruct (counted m n); ifs_in H; try discriminate H; try (injection H as <-; cbn [swords kwords]; lia);
+      apply IHr in H; cbn [swords kwords] in H; lia.
+  - pose proof (dep_nonneg c r). destruct (emit_capture c g u); [|apply IHr in H; lia].
+    ifs_in H; try discriminate H; try (injection H as <-; cbn [swords kwords]; lia); apply IHr in H; cbn [swords kwords] in H; lia.
+  - apply IHr in H. lia.
+  - pose proof (dep_nonneg c r).
+    ifs_in H; try discriminate H; try (injection H as <-; cbn [swords kwords]; lia); apply IHr in H; cbn [swords kwords] in H; lia.
+  - pose proof (dep_nonneg c r).
+    ifs_in H; try discriminate H; try (injection H as <-; cbn [swords kwords]; lia); apply IHr in H; cbn [swords kwords] in H; lia.
+  - pose proof (dep_nonneg c r).
+    ifs_in H; try discriminate H; try (injection H as <-; cbn [swords kwords]; lia); apply IHr in H; cbn [swords kwords] in H; lia.
+  - cbv zeta in H. pose proof (dep_nonneg c yes).
+    destruct no as [x|]; cbn [opt_all dep_opt] in *; [pose proof (dep_nonneg c x)|];
+      ifs_in H; try discriminate H; try (injection H as <-; cbn [swords kwords]; lia);
+      try (apply IHy in H; lia); try (apply IHn in H; lia).
+  - cbv zeta in H. pose proof (dep_nonneg c yes). pose proof (dep_nonneg c cnd).
+    destruct no as [x|]; cbn [opt_all dep_opt] in *; [pose proof (dep_nonneg c x)|];
+      ifs_in H; try discriminate H; try (injection H as <-; cbn [swords kwords]; lia);
+      try (apply IHc in H; cbn [swords kwords] in H; lia); try (apply IHy in H; lia); try (apply IHn in H; lia).
+Qed.
+
+Definition cp_dgood (d : Z) (code : list Z) : Prop := exists tc w, cp_frag code tc w /\ d <= 2 * tc /\ 0 <= tc.
+Ltac dfinish := unfold cp_dgood; do 2 eexists; split; [cp_build|split; lia].
+
+Lemma cp_emit_dgood c : forall t a tbl, cp_dgood (dep c t) (fst (emit c t a tbl)).
+Proof.
+  induction t as [kd o ch|kd lk o ch m n|o str|o g|an| | | |o l HF|o l HF|lazy o m n r IHr|o g u r IHr
+                 |r IHr|o r IHr|o r IHr|r IHr|o g yes no IHy IHn|o cnd yes no IHc IHy IHn]
+    using node_ind'; intros a tbl.
+  - cbn [emit fst dep]. destruct kd; cbn [char_op]; dfinish.
+  - cbn [emit fst dep]. destruct kd, lk, (0 <? m), (m <? n); cbn [rep_op loop_op app]; dfinish.
+  - cbn [emit dep]. destruct (string_code str tbl) as [i tbl']. cbn [fst]. dfinish.
+  - cbn [emit fst dep]. dfinish.
+  - cbn [emit fst dep]. destruct an; cbn [anchor_code]; dfinish.
+  - cbn [emit fst dep]. dfinish.
+  - cbn [emit fst dep]. dfinish.
+  - cbn [emit fst dep]. dfinish.
+  - (* NConcat *)
+    rewrite wr_emit_concat_eq. change (dep c (NConcat o l)) with (dep_list c l). revert a tbl.
+    induction HF as [|x l Hx HF IH]; intros a tbl; cbn [emit_seq dep_list].
+    + cbn [fst]. dfinish.
+    + destruct (Hx a tbl) as (t1 & w1 & F1 & L1 & N1). destruct (emit c x a tbl) as [cx tb1]. cbn [fst] in F1.
+      destruct (IH (a + zlen cx) tb1) as (t2 & w2 & F2 & L2 & N2).
+      destruct (emit_seq c l (a + zlen cx) tb1) as [cr tb2]. cbn [fst] in F2 |- *. dfinish.
+  - (* NAlternate *)
+    rewrite wr_emit_alternate_eq. change (dep c (NAlternate o l)) with (dep_list c l).
+    generalize (a + csize c (NAlternate o l)) as lend. intros lend. revert a tbl.
+    induction HF as [|x l Hx HF IH]; intros a tbl.
+    + cbn [emit_alt fst dep_list]. dfinish.
+    + destruct l as [|y l].
+      * cbn [emit_alt dep_list]. destruct (Hx a tbl) as (t1 & w1 & F1 & L1 & N1). exists t1, w1. split; [exact F1|]. split; lia.
+      * rewrite wr_emit_alt_cons2. change (dep_list c (x :: y :: l)) with (Z.max (dep c x) (dep_list c (y :: l))).
+        destruct (Hx (a + 2) tbl) as (t1 & w1 & F1 & L1 & N1). destruct (emit c x (a + 2) tbl) as [cx tb1].
+        cbn [fst] in F1. cbv zeta.
+        destruct (IH (a + 2 + zlen cx + 2) tb1) as (t2 & w2 & F2 & L2 & N2).
+        destruct (emit_alt c lend (y :: l) (a + 2 + zlen cx + 2) tb1) as [cr tb2]. cbn [fst] in F2 |- *.
+        dfinish.
+  - (* NLoop *)
+    cbn [emit dep]. cbv zeta.
+    match goal with |- context [emit c r ?x tbl] => destruct (IHr x tbl) as (t1 & w1 & F1 & L1 & N1);
+                                                     destruct (emit c r x tbl) as [cr tb1] end.
+    cbn [fst] in F1 |- *.
+    destruct lazy, (counted m n), (m =? 0); cbn [app]; dfinish.
+  - (* NCapture *)
+    cbn [emit dep]. destruct (emit_capture c g u).
+    + destruct (IHr (a + 1) tbl) as (t1 & w1 & F1 & L1 & N1). destruct (emit c r (a + 1) tbl) as [cr tb1].
+      cbn [fst] in F1 |- *. dfinish.
+    + apply IHr.
+  - cbn [emit dep]. apply IHr.
+  - cbn [emit dep]. destruct (IHr (a + 2) tbl) as (t1 & w1 & F1 & L1 & N1). destruct (emit c r (a + 2) tbl) as [cr tb1].
+    cbn [fst] in F1 |- *. dfinish.
+  - cbn [emit dep]. destruct (IHr (a + 3) tbl) as (t1 & w1 & F1 & L1 & N1). destruct (emit c r (a + 3) tbl) as [cr tb1].
+    cbn [fst] in F1 |- *. dfinish.
+  - cbn [emit dep]. destruct (IHr (a + 1) tbl) as (t1 & w1 & F1 & L1 & N1). destruct (emit c r (a + 1) tbl) as [cr tb1].
+    cbn [fst] in F1 |- *. dfinish.
+  - (* NBackRefCond *)
+    cbn [emit dep]. destruct (IHy (a + 6) tbl) as (t1 & w1 & F1 & L1 & N1). destruct (emit c yes (a + 6) tbl) as [cy tb1].
+    cbn [fst] in F1. cbv zeta.
+    destruct no as [x|]; cbn [opt_all dep_opt] in *.
+    + match goal with |- context [emit c x ?q tb1] => destruct (IHn q tb1) as (t2 & w2 & F2 & L2 & N2);
+                                                       destruct (emit c x q tb1) as [cn tb2] end.
+      cbn [fst] in F2 |- *. dfinish.
+    + cbn [fst]. dfinish.
+  - (* NExprCond *)
+    cbn [emit dep]. destruct (IHc (a + 4) tbl) as (t0 & w0 & F0 & L0 & N0). destruct (emit c cnd (a + 4) tbl) as [cc tb0].
+    cbn [fst] in F0. cbv zeta.
+    match goal with |- context [emit c yes ?q tb0] => destruct (IHy q tb0) as (t1 & w1 & F1 & L1 & N1);
+                                                      destruct (emit c yes q tb0) as [cy tb1] end.
+    cbn [fst] in F1.
+    destruct no as [x|]; cbn [opt_all dep_opt] in *.
+    + match goal with |- context [emit c x ?q tb1] => destruct (IHn q tb1) as (t2 & w2 & F2 & L2 & N2);
+                                                       destruct (emit c x q tb1) as [cn tb2] end.
+      cbn [fst] in F2 |- *. dfinish.
+    + cbn [fst]. dfinish.
+Qed.
+
+(* ---------- every program the writer emits is accepted by the verifier ---------- *)
+Theorem compiled_tyck c root p :
+  codes p = fst (compile c root) -> track_count (codes p) <= trackcount p ->
+  exists sh, tyck p sh = true.
+Proof.
+  intros Hcodes Htk. unfold compile in Hcodes.
+  pose proof (emit_length c root 2 []) as Lr. pose proof (csize_nonneg c root) as Hr0.
+  destruct (cp_emit_dgood c root 2 []) as (t1 & w1 & F1 & D1 & N1).
+  remember (2 + csize c root) as L eqn:EL.
+  set (G := fun pc => if pc =? 0 then Some [] else if pc =? L then Some []
+                      else if (2 <=? pc) && (pc <? L) then shf c root 2 [] pc else None).
+  assert (Har : agree G (shf c root 2 []) 2 (2 + csize c root)).
+  { intros pc Hpc. unfold G. shev. reflexivity. }
+  assert (HL : G L = Some []) by (unfold G; shev; reflexivity).
+  assert (H0 : G 0 = Some []) by reflexivity.
+  assert (Hcases : forall pc s, G pc = Some s -> (s = [] /\ (pc = 0 \/ pc = L)) \/ shf c root 2 [] pc = Some s).
+  { intros pc s H. unfold G in H. destruct (pc =? 0) eqn:E0; [left; injection H as <-; split; [reflexivity|lia]|].
+    destruct (pc =? L) eqn:E1; [left; injection H as <-; split; [reflexivity|lia]|].
+    destruct ((2 <=? pc) && (pc <? L)); [right; exact H|discriminate H]. }
+  clearbody G.
+  assert (HL' : G (2 + csize c root) = Some []) by (rewrite <- EL; exact HL).
+  destruct (emit_typed c root 2 [] [] G Har HL') as (Sr & Wr & Dr).
+  destruct (emit c root 2 []) as [cr tbl] eqn:Er. cbn [fst] in *. rewrite Lr in Hcodes. rewrite <- EL in Hcodes.
+  assert (W : wtc G 0 (codes p) ([0] ++ Sr ++ [L])).
+  { rewrite Hcodes. apply (wtc_app G 0 [Lazybranch; L] [0]).
+    - apply wtc_one; [reflexivity|]. apply (iok_const G 0 Lazybranch _ [] Lazybranch eq_refl H0). cbn.
+      change (opcode_size Lazybranch) with 2. change (0 + 2) with 2.
+      rewrite (entryG c root 2 [] G Har HL'), HL. reflexivity.
+    - change (zlen [Lazybranch; L]) with 2. change (0 + 2) with 2. apply (wtc_app G 2 cr Sr Wr). rewrite Lr, <- EL.
+      apply wtc_one; [reflexivity|]. apply (iok_const G L Stop _ [] Stop eq_refl HL). reflexivity. }
+  destruct (wtc_program p G _ W) as [I1 I2].
+  assert (Hdom : forall pc s, G pc = Some s -> exists w, instr_at p pc = Some w).
+  { intros pc s H. apply I2. cbn [app]. destruct (Hcases pc s H) as [[_ [E|E]]|E].
+    - left. lia.
+    - right. apply in_or_app. right. left. lia.
+    - right. apply in_or_app. left. eapply Dr. exact E. }
+  exists (sh_of p G). unfold tyck.
+  (* the opcodes at 0 and at L *)
+  assert (Hc0 : code_at p 0 = Some Lazybranch) by (unfold code_at; rewrite Hcodes; reflexivity).
+  assert (Ha1 : arg1 p 0 = L) by (apply (arg1_at p [] Lazybranch L (cr ++ [Stop]) 0); [exact Hcodes|reflexivity]).
+  assert (HcL : code_at p L = Some Stop).
+  { unfold code_at, znth. rewrite Hcodes. replace (L <? 0) with false by lia.
+    change ([Lazybranch; L] ++ cr ++ [Stop]) with (Lazybranch :: L :: cr ++ [Stop]).
+    replace (Z.to_nat L) with (S (S (length cr))) by (unfold zlen in Lr; lia).
+    cbn [nth_error]. rewrite nth_error_app2 by lia. rewrite Nat.sub_diag. reflexivity. }
+  assert (Hi0 : instr_at p 0 = Some Lazybranch).
+  { destruct (I2 0 ltac:(cbn [app]; left; reflexivity)) as [w Hw]. pose proof (instr_at_bnd p 0 w Hw) as [_ Hcw]. congruence. }
+  assert (HiL : instr_at p L = Some Stop).
+  { destruct (I2 L ltac:(cbn [app]; right; apply in_or_app; right; left; reflexivity)) as [w Hw].
+    pose proof (instr_at_bnd p L w Hw) as [_ Hcw]. congruence. }
+  apply andb_true_intro. split; [apply andb_true_intro; split; [apply andb_true_intro; split|]|].
+  - apply forallb_forall. intros [pc w] Hin. cbn [fst snd]. rewrite (instr_ok_of p G Hdom). apply I1. exact Hin.
+  - rewrite Hi0, Ha1, HiL. reflexivity.
+  - rewrite (sh_at_of p G Hdom), H0. reflexivity.
+  - apply forallb_forall. intros [pc s] Hin. cbn [snd].
+    unfold sh_of in Hin. apply in_flat_map in Hin. destruct Hin as ([c0 w0] & _ & Hin). cbn [fst] in Hin.
+    destruct (G c0) as [s0|] eqn:Eg; [|contradiction]. destruct Hin as [Hin|[]]. injection Hin as <- <-.
+    (* TrackCount of the whole program *)
+    assert (Ftot : cp_frag (codes p) (1 + (t1 + 0)) (4 + (w1 + 0))).
+    { rewrite Hcodes. change ([Lazybranch; L] ++ cr ++ [Stop]) with (Lazybranch :: L :: cr ++ [Stop]).
+      apply (cp_frag_i1 Lazybranch L (cr ++ [Stop]) 1 4); [reflexivity|reflexivity|reflexivity|].
+      apply (cp_frag_app cr t1 w1 F1). apply (cp_frag_i0 Stop [] 0 0 0 0); [reflexivity|reflexivity|reflexivity|apply cp_frag_nil]. }
+    apply cp_frag_totals in Ftot. destruct Ftot as [_ Htc].
+    assert (Hs : swords s0 <= dep c root).
+    { destruct (Hcases c0 s0 Eg) as [[-> _]|E]; [cbn [swords]; apply dep_nonneg|].
+      apply shf_depth in E. cbn [swords] in E. lia. }
+    unfold sinit, G_stacksize_mul, G_stacksize_min. lia.
+Qed.
+
+Print Assumptions compiled_tyck.
